@@ -138,23 +138,26 @@ def build(cell, pname, rotM, fracpos, decoy='none', atol=0.05, noise=False, seed
     return dict(pos=pos, el=el, planted=planted, pp=pp, pel=pel)
 
 
-def sheet_pattern(n=30, height=0.5):
+def sheet_pattern(n=30, height=0.5, apex_at=None):
     """many-atom chiral pattern: an irregular flat sheet of n atoms (elements cycling C, N, O; pairwise >= 1.3 A apart,
-    within a 11 x 11 A square) plus one apex atom (S) `height` above the sheet.  Its mirror image differs in one atom
-    only, by 2*height; the rms displacement of the mirror image is 2*height/sqrt(n+1)."""
-    r = np.random.RandomState(20240607); pts = []
+    within a 11 x 11 A square, 16 x 16 A for n > 30) plus one apex atom (S) `height` above the sheet, listed last or at
+    index apex_at.  Its mirror image differs in one atom only, by 2*height; the rms displacement of the mirror image
+    is 2*height/sqrt(n+1)."""
+    r = np.random.RandomState(20240607); pts = []; side = 11.0 if n <= 30 else 16.0
     while len(pts) < n:
-        q = r.uniform(0, 11.0, 2)
+        q = r.uniform(0, side, 2)
         if all(np.linalg.norm(q - p) >= 1.3 for p in pts):
             pts.append(q)
-    pp = np.array([(x, y, 0.0) for x, y in pts] + [(5.3, 5.9, height)])
-    return [['C', 'N', 'O'][i % 3] for i in range(n)] + ['S'], pp
+    pel = [['C', 'N', 'O'][i % 3] for i in range(n)]; pp = [(x, y, 0.0) for x, y in pts]
+    at = n if apex_at is None else apex_at
+    pel.insert(at, 'S'); pp.insert(at, (0.48 * side, 0.54 * side, height))
+    return pel, np.array(pp)
 
 
-def sheet_structure(cell, rotM, anchor_frac, mirror_anchor_frac, n=30, height=0.5):
+def sheet_structure(cell, rotM, anchor_frac, mirror_anchor_frac, n=30, height=0.5, apex_at=None):
     """(elements, positions, planted proper copy, planted mirror-image copy) in `cell` (wrapped)"""
     from mc.ref.geom import wrap
-    pel, pp = sheet_pattern(n, height)
+    pel, pp = sheet_pattern(n, height, apex_at)
     proper = (rotM @ (pp - pp.mean(0)).T).T + np.asarray(anchor_frac) @ cell
     mir = pp.copy(); mir[:, 2] *= -1
     rot2 = rotM @ rotM
